@@ -25,13 +25,15 @@ def run(chk):
     scs = [gen.gen_success_scenario(rng) for _ in range(N)]
     for sc in scs:
         sc['same_func'] = rng.random() < .3
+        if rng.random() < .3:
+            sc['rules'] = gen.schedule_rules(rng, sc['pool']['n_jobs'])
         if rng.random() < .5:
             for op in sc['ops']:
                 op.setdefault('worker_lifespan', rng.choice([1, 2, 3]))
     obs = run_scenarios(chk, 'successful calls (restarts, keep-alive sequences)', scs, {'C02'},
                         nontrivial=lambda sc, o: len(o.get('calls', [])) >= 2,
                         dist=lambda sc, o: {'n_jobs': sc['pool']['n_jobs'], 'start': sc['pool']['start_method'], 'ops': len(sc['ops']),
-                                            'keep_alive': bool(sc['pool'].get('keep_alive')),
+                                            'keep_alive': bool(sc['pool'].get('keep_alive')), 'adversarial_schedule': bool(sc.get('rules')),
                                             'restarts': 'yes' if len({c[3] for c in o.get('calls', [])}) > sc['pool']['n_jobs'] * len(sc['ops']) else 'no'})
     proto_correspondence(chk, 'protocol traces vs Mpire.Proto.step (success)', scs, obs)
     fs = fail_scenarios(rng, N // 3)
